@@ -4,6 +4,7 @@ import AcraModel.Props.C10
 import AcraModel.Sql.MysqlComment
 import AcraModel.Props.C13
 import AcraModel.Sql.TokenizerLoop
+import AcraModel.Censor.NilGuard
 /-!
 # C14 — no input can crash a handler or make it consume unbounded resources
 
@@ -353,5 +354,71 @@ example : ∃ ts, tokenize .mysql .mysql (strBytes "select `a`, 1.5e3 from t whe
   exact ⟨ts, h, tokenizer_token_count _ _ _ ts h⟩
 
 end Tokenizer
+
+/-! ## acra-censor pattern matcher: comparators with pointer operands never look through a nil pointer
+
+`AcraCensor.HandleQuery` runs the pattern matcher of `acra-censor/common/matching_logic.go` on every client statement
+when an allow / deny handler has patterns. The matcher model of C05 is total by construction (a field of a nil tree is
+"no match"); here the nil cases are explicit: `Censor/NilGuard.lean`, tables regenerated by factgen `censornil.go`. -/
+section CensorNil
+open AcraModel.Censor.NilGuard Generated
+
+/-- the comparators that receive pointer fields the grammar can leave nil (`Where`, `Having`, `Limit`, index hints,
+length and scale of a CAST / CONVERT type) – read from the call sites of `matching_logic.go` and the grammar table of
+`sql.y` – and the pointer fields that are never nil in a parsed statement -/
+theorem fact_optional_call_sites :
+    optionalCalls.map (fun c => (c.2.1, c.2.2.1, c.2.2.2)) =
+      [("areEqualLimit", "Union", "Limit"), ("areEqualWhere", "Select", "Where"), ("areEqualWhere", "Select", "Having"),
+       ("areEqualLimit", "Select", "Limit"), ("areEqualWhere", "Update", "Where"), ("areEqualLimit", "Update", "Limit"),
+       ("areEqualWhere", "Delete", "Where"), ("areEqualLimit", "Delete", "Limit"),
+       ("areEqualIndexHints", "AliasedTableExpr", "Hints"), ("areEqualOptionalSQLVal", "ConvertType", "Length"),
+       ("areEqualOptionalSQLVal", "ConvertType", "Scale")] ∧
+    (CensorNil.ptrFieldCalls.filter (fun c => !optionalCalls.contains c)).map (fun c => (c.2.2.1, c.2.2.2)) =
+      [("UpdateExpr", "Name"), ("SubstrExpr", "Name"), ("ConvertExpr", "Type"), ("ValuesFuncExpr", "Name"),
+       ("ExistsExpr", "Subquery"), ("UpdateExpr", "Name")] := by decide +kernel
+
+/-- every pointer field a comparator call site reads is a pointer field of `ast.go`, and its struct type was evident
+to the extractor (no `?`) -/
+theorem fact_call_sites_typed :
+    CensorNil.ptrFieldCalls.all (fun c => CensorNil.ptrFields.any (fun f => f.1 == c.2.2.1 && f.2.1 == c.2.2.2)) = true := by
+  decide +kernel
+
+/-- **Every comparator that can receive a nil pointer guards all three nil combinations** (regenerated table): it
+returns `true` when both operands are nil and `false` when exactly one is – before any dereference.
+(`areEqualOptionalSQLVal` reduced to `if pattern == nil { return query == nil }` leaves "query nil, pattern set"
+unguarded: pattern `CAST(x AS CHAR(10))` against `CAST(x AS CHAR)` then panics in `HandleQuery`.) -/
+theorem fact_optional_comparators_guard_nil : optionalCallsGuarded = true := by decide +kernel
+
+/-- **The pattern matcher never dereferences a nil optional operand.** For every call site of `matching_logic.go`
+that hands a comparator a pointer field the grammar can leave nil, and for all four combinations of nil / non-nil
+operands, the comparator does not panic – and it treats nil like Go's `==` on the pointers: two nil operands are
+equal, a nil and a non-nil one are not, two non-nil ones are compared by the body. -/
+theorem censor_optional_operands_never_panic {c : String × String × String × String} (hc : c ∈ optionalCalls)
+    {α : Type} (body : α → α → Bool) (q p : Option α) :
+    ptrCompare (guardsOf c.2.1) body q p ≠ .panic ∧
+      ptrCompare (guardsOf c.2.1) body q p = .ok (match q, p with
+        | some a, some b => body a b
+        | none, none => true
+        | _, _ => false) := by
+  have h := fact_optional_comparators_guard_nil
+  simp only [optionalCallsGuarded, List.all_eq_true] at h
+  exact ptrCompare_total (h c hc) body q p
+
+/-- **The check is not vacuous**: with the guard of the "query nil, pattern set" combination gone (the body reaches
+`areEqualSQLVal(query, pattern)` with a nil query) the comparator panics on exactly that combination and on no other. -/
+theorem seeded_guard_counterexample :
+    let g : Guards := ⟨.retTrue, .deref, .retFalse⟩
+    g.total = false ∧
+    ptrCompare g (fun (_ _ : Nat) => true) none (some 10) = .panic ∧
+    ptrCompare g (fun (_ _ : Nat) => true) none none = .ok true ∧
+    ptrCompare g (fun (_ _ : Nat) => true) (some 10) none = .ok false ∧
+    ptrCompare g (fun (_ _ : Nat) => true) (some 10) (some 10) = .ok true := by decide
+
+/-- non-vacuity: the length of a CAST type is such a call site, and `CHAR` against `CHAR(10)` is "no match" -/
+example : ("areEqualConvertType", "areEqualOptionalSQLVal", "ConvertType", "Length") ∈ optionalCalls ∧
+    ptrCompare (guardsOf "areEqualOptionalSQLVal") (fun (a b : Nat) => a == b) none (some 10) = .ok false := by
+  decide +kernel
+
+end CensorNil
 
 end AcraModel.Props.C14
